@@ -33,6 +33,7 @@ type env struct {
 	committed map[common.Hash]uint64    // committed tx hash -> height
 	pending   []*chainsim.Tx            // admitted confidential spends not yet committed
 	lastAcct  []types.Tx                // recently committed account transactions (for replays)
+	failed    []types.Tx                // committed account transactions whose execution FAILED (receipt status): they too used up their nonce
 	attempts  int
 	restarts  int
 }
@@ -80,10 +81,21 @@ func (e *env) commit(t *rapid.T, blk *types.Block, how string) bool {
 	if err := e.s.AfterCommit(blk, nil, pre); err != nil {
 		t.Fatalf("bookkeeping: %v", err)
 	}
-	for _, tx := range blk.Data.Txs {
+	receipts := e.s.W.BlockStore.GetReceipts(blk.Height)
+	for i, tx := range blk.Data.Txs {
 		e.committed[tx.Hash()] = blk.Height
 		if _, _, ok := chainsim.SenderOf(tx); ok {
 			e.lastAcct = append(e.lastAcct, tx)
+			if receipts != nil && i < len(*receipts) && (*receipts)[i].Status != types.ReceiptStatusSuccessful {
+				e.failed = append(e.failed, tx)
+				vstat.Label("failed_tx_committed")
+			}
+		}
+	}
+	// the committed state carries, for every sender, the nonce the history of executed transactions gives
+	for from, n := range e.nextNonce {
+		if got := e.s.Committed().GetNonce(from); got != n {
+			e.fail(t, "state-nonce-differs-from-executed-history", "%s: after block %d sender %s has executed nonces up to %d but the state says the next nonce is %d", how, blk.Height, from.Hex()[:10], n-1, got)
 		}
 	}
 	var keep []*chainsim.Tx
@@ -146,7 +158,7 @@ func TestDoubleSpendHistory(t *testing.T) {
 	rapid.Check(t, func(t *rapid.T) {
 		vstat.Eval()
 		e := &env{nextNonce: map[common.Address]uint64{}, committed: map[common.Hash]uint64{}}
-		e.s = chainsim.New(t, chainsim.Options{NumAccts: rapid.IntRange(2, 3).Draw(t, "naccts"), NumWallets: 2, AllRich: true})
+		e.s = chainsim.New(t, chainsim.Options{NumAccts: rapid.IntRange(2, 3).Draw(t, "naccts"), NumWallets: 2, AllRich: true, Contracts: true})
 		defer func() { e.s.Close() }()
 		s := e.s
 		propose := func() *types.Block {
@@ -175,10 +187,16 @@ func TestDoubleSpendHistory(t *testing.T) {
 		nops := rapid.IntRange(4, 24).Draw(t, "nops")
 		for i := 0; i < nops; i++ {
 			op := rapid.SampledFrom([]string{"a2u", "transfer", "spend", "spend", "respend-pending", "respend-committed", "dup-ki-in-tx", "inject-two-spends", "inject-committed-spend",
-				"inject-tx-twice", "inject-replay-old", "inject-nonce-gap", "inject-reorder", "resubmit-committed", "commit", "commit", "commit-foreign", "commit-foreign", "restart", "concurrent-respend"}).Draw(t, "op")
+				"inject-tx-twice", "inject-replay-old", "inject-nonce-gap", "inject-reorder", "resubmit-committed", "failing-call", "failing-call", "inject-replay-failed", "resubmit-failed", "commit", "commit", "commit-foreign", "commit-foreign", "restart", "concurrent-respend"}).Draw(t, "op")
 			switch op {
 			case "a2u":
 				if g := s.GenA2U(t); g != nil {
+					err := s.W.Submit(g.Tx)
+					e.logf("%s %s => %v", op, g.Desc, err)
+				}
+			case "failing-call":
+				// a call that is included in a block and FAILS there (it reverts, or runs out of gas): gas is charged, the nonce is used up
+				if g := s.GenAccountTx(t, []string{"call-revert", "call-fwdrevert", "call-killrevert"}); g != nil {
 					err := s.W.Submit(g.Tx)
 					e.logf("%s %s => %v", op, g.Desc, err)
 				}
@@ -331,6 +349,31 @@ func TestDoubleSpendHistory(t *testing.T) {
 				e.logf("%s %x => accepted=%v (%s)", op, ow.KeyImage[:6], acc, note)
 				if acc {
 					e.fail(t, "validator-accepts-double-spend-in-block", "a hand-made block with two spends of key image %x is accepted by CheckBlock", ow.KeyImage[:6])
+				}
+			case "inject-replay-failed", "resubmit-failed":
+				// the same signed transaction again after it was executed and FAILED
+				if len(e.failed) == 0 {
+					continue
+				}
+				tx := chainsim.Fresh(e.failed[rapid.IntRange(0, len(e.failed)-1).Draw(t, "oldfailed")])
+				e.attempts++
+				vstat.Label("attempt_" + op)
+				if op == "inject-replay-failed" {
+					acc, note := s.InjectAccepted(types.Txs{tx})
+					e.logf("%s %s => accepted=%v (%s)", op, tx.Hash().Hex()[:10], acc, note)
+					if acc {
+						e.fail(t, "validator-accepts-replay-of-failed-tx", "a hand-made block repeating transaction %s, which an earlier block executed (it failed there), is accepted by CheckBlock", tx.Hash().Hex())
+					}
+				} else {
+					err := s.W.Submit(tx)
+					e.logf("%s %s => %v", op, tx.Hash().Hex()[:10], err)
+					if err == nil {
+						for _, o := range s.W.Mempool.Reap(1 << 30) {
+							if o.Hash() == tx.Hash() {
+								e.fail(t, "mempool-offers-committed-tx", "a committed (failed) transaction was admitted again and is offered for the next block")
+							}
+						}
+					}
 				}
 			case "inject-tx-twice", "inject-replay-old", "inject-nonce-gap", "inject-reorder":
 				from := s.Accts[rapid.IntRange(0, len(s.Accts)-1).Draw(t, "from")]
